@@ -25,6 +25,10 @@ class Step:
         }
 
 
+class NotAReference(Exception):
+    """Harness-level refusal: `assign` is only defined for identifier values."""
+
+
 def apply_op(src, op: dict):
     """Run one set/rm on the live object through the CLI helpers."""
     from nix_manipulator.cli.manipulations import remove_value, set_value
@@ -33,6 +37,19 @@ def apply_op(src, op: dict):
         return set_value(src, op["path"], op["value"])
     if op["op"] == "rm":
         return remove_value(src, op["path"])
+    if op["op"] == "assign":
+        # assignment through the identifier reached by mapping traversal
+        from nix_manipulator import parse
+
+        from nix_manipulator.expressions.identifier import Identifier
+
+        cur = src
+        for seg in op["path"].split("."):
+            cur = cur[seg]
+        if not isinstance(cur, Identifier):
+            raise NotAReference(op["path"])  # `.value =` means something else on other node types
+        cur.value = parse(op["value"]).expressions[0]
+        return src.rebuild()
     raise ValueError("unknown op %r" % (op,))
 
 
@@ -62,7 +79,7 @@ def run_history(doc: str, ops: list[dict], *, predict: bool = True) -> list[Step
             st.dec_before = reader.decode(st.before, with_ext=True)
             dm = DocModel(st.dec_before)
             st.model_before = dm.snapshot()
-            st.pred = dm.apply(op)
+            st.pred = dm.apply(op) if op["op"] in ("set", "rm") else ("unspecified", "assign")
             st.expected = dm.snapshot() if st.pred[0] == "ok" else None
         try:
             out = apply_op(src, op)
@@ -407,4 +424,128 @@ def oracle_c09(steps: list[Step], counters: dict | None = None) -> list[Violatio
             if b_toks != a_toks or (canonical and b_head != a_head):
                 out.append(Violation("C09.other_layer_changed", "a let layer that was not addressed changed: %r -> %r" % (b_head[-120:], a_head[-120:]), st.i, f))
                 break
+    return out
+
+
+# ---------------------------------------------------------------------------
+# C11: editing through a reference updates exactly the defining binding
+# ---------------------------------------------------------------------------
+
+
+def _sibling_value_extent(dec, segs, name):
+    """Value extent of attribute *name* in the set that holds the attribute addressed by *segs*."""
+    members = dec.target
+    for seg in segs[:-1]:
+        nxt = None
+        for m in members:
+            if m[0] == "b" and m[1] == (seg,) and m[2][0] == "set":
+                nxt = m[2][2]
+        if nxt is None:
+            return None
+        members = nxt
+    for m in members:
+        if m[0] == "b" and m[1] == (name,):
+            return m[3]["value"]
+    return None
+
+
+def oracle_c11(steps: list[Step], counters: dict | None = None) -> list[Violation]:
+    from . import resolver
+    from .model import PathError, PathUnspecified, parse_npath
+
+    out: list[Violation] = []
+    counters = counters if counters is not None else {}
+
+    def bump(k):
+        counters[k] = counters.get(k, 0) + 1
+
+    for st in steps:
+        if st.op["op"] not in ("set", "assign"):
+            continue
+        try:
+            depth, segs = parse_npath(st.op["path"])
+        except (PathError, PathUnspecified):
+            continue
+        if depth != 0 or st.dec_before is None or st.dec_before.error or not st.dec_before.shape.editable:
+            continue
+        res, info = resolver.resolve_attr(st.before, segs)
+        if res is None or not info.get("is_reference"):
+            continue
+        value_text = st.op["value"]
+        vtoks = reader.tokens_of_text(value_text)
+        wr = info.get("wrappers") or []
+        first_let = wr.index("let") if "let" in wr else None
+        f = {"op": st.op["op"], "mode": "fresh" if st.fresh else "live", "expected": res.kind, "binder": res.binder, "via": res.via,
+             "wrappers": wr, "chain": res.chain, "exc": st.exc_class,
+             "let_separated": first_let is not None and any(k in ("assert", "lambda", "call", "paren") for k in wr[first_let + 1:]),
+             "has_with": "with" in wr, "target_rec": st.dec_before.rec}
+        first_scope = min([wr.index(k) for k in ("let", "with") if k in wr], default=None)
+        # some let/with wrapper is separated from the target set by an assert, lambda head, call or parenthesis
+        f["separated"] = first_scope is not None and any(k in ("assert", "lambda", "call", "paren") for k in wr[first_scope + 1:])
+        f["broken_chain"] = res.kind == "unbound" and res.last_extent is not None
+        bump("reference_edits")
+        bump("expected:" + res.kind)
+        if res.kind == "value":
+            s, e = res.extent
+            bump("binder:" + str(res.binder))
+        elif res.kind == "unbound":
+            # the chain ends at the last bound link (its value is the unbound name); with no link at all
+            # the binding at the path itself is overwritten
+            s, e = res.last_extent if res.last_extent is not None else info["value_extent"]
+        else:
+            bump("skip:" + res.kind)
+            if st.outcome == "ok" and st.dec_out is not None and st.dec_out.error:
+                out.append(Violation("C11.invalid_output", "edit through a reference emitted a syntax error", st.i, f))
+            continue
+        if st.outcome != "ok":
+            if st.op["op"] == "assign" and st.exc_class == "ResolutionError":
+                # assignment through the identifier needs resolution; an explicit resolution failure is C10's
+                # tolerated outcome ("or fails explicitly"), counted here by expectation
+                bump("assign_refused_resolution_error:" + res.kind)
+                continue
+            out.append(Violation("C11.refused", "edit of %s (reference to %s) refused with %s: %s" % (st.op["path"], info.get("ref_name"), st.exc_class, st.exc_msg), st.i, f))
+            continue
+        if st.dec_out.error:
+            out.append(Violation("C11.invalid_output", "edit through a reference emitted a syntax error: %r" % st.out[-160:], st.i, f))
+            continue
+        data = st.dec_before.doc.data
+        btoks = st.dec_before.doc.tokens()
+        expected = [t[0] for t in btoks if t[2] <= s] + list(vtoks) + [t[0] for t in btoks if t[1] >= e]
+        got = st.dec_out.doc.token_texts()
+        own_s, own_e = info["value_extent"]
+        alt = [t[0] for t in btoks if t[2] <= own_s] + list(vtoks) + [t[0] for t in btoks if t[1] >= own_e]
+        if got != expected and f["broken_chain"] and got == alt:
+            # the chain ends in an unbound name: overwriting the reference itself is as defensible as
+            # overwriting the last bound link; not asserted either way
+            bump("broken_chain_overwrote_reference")
+            continue
+        if got != expected:
+            # describe what changed instead
+            if res.kind == "value" and got == alt:
+                what = "the reference itself was overwritten instead of the defining binding (%s, via %s)" % (res.tokens, res.via)
+                f["symptom"] = "overwrote_reference"
+            else:
+                k = 0
+                while k < min(len(got), len(expected)) and got[k] == expected[k]:
+                    k += 1
+                what = "another binding changed: near token %d expected …%r got …%r" % (k, expected[max(0, k - 4):k + 4], got[max(0, k - 4):k + 4])
+                f["symptom"] = "other_binding"
+                sib = _sibling_value_extent(st.dec_before, segs, info.get("ref_name"))
+                if sib is not None:
+                    ss, se = sib
+                    alt2 = [t[0] for t in btoks if t[2] <= ss] + list(vtoks) + [t[0] for t in btoks if t[1] >= se]
+                    if got == alt2:
+                        f["symptom"] = "sibling_fallback"
+                        what = "the same-named sibling attribute of a non-rec set was rewritten although it is not in scope there"
+            out.append(Violation("C11.wrong_binding", "set %s = %s through reference %s: %s" % (st.op["path"], value_text, info.get("ref_name"), what), st.i, f))
+            continue
+        bump("checked:tokens")
+        canonical = (st.before_live == st.before) if st.fresh else _is_fixed_point(st.before)
+        if canonical:
+            odata = st.dec_out.doc.data
+            tail = data[e:]
+            if not (odata.startswith(data[:s]) and odata.endswith(tail) and len(odata) >= s + len(tail)):
+                out.append(Violation("C11.bytes", "text outside the defining binding's value changed: %r -> %r" % (data[max(0, s - 30):e + 30], odata[max(0, s - 30):s + 60]), st.i, f))
+                continue
+            bump("checked:bytes")
     return out
